@@ -363,6 +363,39 @@ def _check(ctx, kind, ts, dtype, ba, bs, samples, pi, pr, pc, a, reqs, pending, 
                 ctx.fail(case, {'what': 'decode_frame(encode_frame(x)) != x', 'got_shape': list(np.asarray(dec).shape),
                                 'got': np.asarray(dec).reshape(-1)[:24].tolist(),
                                 'want': np.asarray(a).astype(np.int64).reshape(-1)[:24].tolist()}, site='roundtrip')
+            # ---- several calls in ONE process: a result is the caller's own.  Edit the decoded array in place (as windowing
+            # or masking code does), decode the same bytes with the same parameters again: the second result must be the
+            # original frame again and must not share memory with the first; encoding the same frame again gives the same
+            # bytes (nothing carried over from earlier calls, whatever syntaxes came before)
+            if st2 == 'ok' and isinstance(dec, np.ndarray) and dec.size:
+                first = dec
+                before = np.array(first, copy=True)
+                if first.flags.writeable:
+                    if before.dtype.kind in 'iu':
+                        first[...] = np.bitwise_xor(before, 1)
+                    elif before.dtype.kind == 'b':
+                        first[...] = ~before
+                    edited = not np.array_equal(first, before)
+                else:
+                    edited = False
+                    ctx.hist('decode_history', 'result not writeable')
+                st2b, again = _decode(val, ts, rows, cols, spp, ba, bs, pi, pr, pc, spell)
+                if st2b != 'ok':
+                    ctx.fail(case, f'the second decode_frame call with equal arguments fails: {again}', site='decode-history')
+                else:
+                    if not (np.asarray(again).shape == before.shape and np.array_equal(np.asarray(again), before)):
+                        ctx.fail(case, {'what': 'decode_frame returns different values for equal arguments after the first result '
+                                                'was edited in place', 'first_call': before.reshape(-1)[:12].tolist(),
+                                        'second_call': np.asarray(again).reshape(-1)[:12].tolist()}, site='decode-history')
+                    elif isinstance(again, np.ndarray) and np.shares_memory(first, again):
+                        ctx.fail(case, 'two decode_frame calls return arrays that share memory', site='decode-history')
+                    ctx.hist('decode_history', 'edited and decoded again' if edited else 'decoded again')
+                dec = before
+                if ctx.evaluations % 3 == 0:
+                    st1b, val2 = _encode(a, ts, ba, bs, pi, pr, pc, spell)
+                    if st1b != 'ok' or bytes(val2) != bytes(val):
+                        ctx.fail(case, 'encoding the same frame a second time gives ' +
+                                 (str(val2) if st1b != 'ok' else 'different bytes'), site='encode-history')
             st3, pyd = _pydicom_one_frame(val, ts, rows, cols, spp, ba, bs, pi, pr, pc)
             if st3 != 'ok':
                 ctx.fail(case, f'pydicom cannot decode the bytes as a one-frame image: {pyd}', site='one-frame')
